@@ -3,7 +3,8 @@
    Line 1: the registrations the driver created (fields read from the real DecoyRegistration objects).
    Publish  id, msg: msg = the abstract view of the DECODED real payload; it must be exactly the message the specification's
             station builds for that registration and operation (Validate = New, Activate = Update, Shutdown = Clear).
-   Dup / Tick / StState: lifetime histories (see below).
+   Dup / Tick / StState / Packets (every session the detector tracks forwards a packet) / Crash (the station process is replaced
+            without Cleanup): lifetime histories (see below).
    DetState sessions: the real detector's session map after it handled the message (tags parsed from its dump, remaining
             lifetime rounded to the unused / active lifetime); must equal the specification's detector state. *)
 EXTENDS Detector, Json, TLCExt
@@ -30,6 +31,8 @@ TraceStep ==
        [] e.a = "Reset" -> /\ now' = 0 /\ st' = [r \in Regs |-> None] /\ det' = {} /\ sent' = None /\ cleared' = FALSE
                            /\ obs' = [a |-> "Init"]
        [] e.a = "Dup" -> Duplicate(RegOf(e.id))
+       [] e.a = "Packets" -> Packets
+       [] e.a = "Crash" -> Crash
        [] e.a = "Tick" -> TickBy(e.d)
        [] e.a = "StState" -> /\ \A r \in Regs : /\ (st[r] # None) = e.tracked[r.id]
                                                  /\ (st[r] # None => st[r].used = e.used[r.id])
